@@ -38,9 +38,18 @@ use routee_compass_core::{
 };
 use serde_json::Value;
 use std::rc::Rc;
+#[cfg(not(routee_compass_verif))]
 use std::{
     path::{Path, PathBuf},
     sync::{Arc, Mutex},
+};
+#[cfg(routee_compass_verif)]
+use {
+    routee_compass_core::util::verif_sync::Mutex,
+    std::{
+        path::{Path, PathBuf},
+        sync::Arc,
+    },
 };
 
 /// Instance of RouteE Compass as an application.
